@@ -120,6 +120,20 @@ def check_adders(run, rule_ret, rule_cons):
                 inserts.append(c)
             if c.get("k") == "MCall" and callee_name(c) == "clear" and path(c.get("recv")) == ("this",):
                 erases.append(c)
+        # ... and no path reports "accepted" (returns full()) before it got to the insertion: a shortcut in front of the store
+        # drops the records that take it
+        if len(inserts) == 1:
+            order_ = {id(x): i for i, x in enumerate(ir.walk(f["body"]))}
+            def empty_record(g_):
+                """the guard says that no member of the record handed in is set (such a record is not storable by design)"""
+                at = [a_ for a_ in conjuncts(g_) if not (a_[0] == "bit" and "other_data_hints" in path_str(a_[1]))]   # past the storage gate
+                return bool(at) and all(a_[0] == "not" and a_[1][0] in ("present", "nonempty") and a_[1][1][0].startswith("p:") for a_ in at)
+            early = [st_ for st_, g_, loops_ in ir.guarded_statements(f["body"], env) if st_.get("k") == "Return" and
+                     order_[id(st_)] < order_[id(inserts[0])] and const_value(st_.get("e")) not in (0, False) and not empty_record(g_)]
+            run.ob(rule_cons, "%s:no-accepting-return-before-the-store" % tag, not early, f, early[0].get("l", f["line"]) if early else f["line"],
+                   "every return that reports the record as taken comes after the store" if not early else
+                   "a return at line %s reports the record as taken (returns %s) before the function reached its store: records that take this "
+                   "path are dropped without trace" % (early[0].get("l"), show(early[0].get("e"))))
         ok = len(inserts) == 1 and not erases
         run.ob(rule_cons, "%s:inserts-once" % tag, ok, f, (erases or inserts or [f])[0].get("l", f["line"]) if (erases or inserts) else f["line"],
                "one insertion site, nothing erased" if ok else
@@ -193,10 +207,13 @@ def check(run):
     # R12.5 who may clear the buffered block
     callers = []
     for f in facts.functions.values():
-        if f.get("cls") != EXP:
+        if f.get("body") is None or not f.get("file", "").startswith(facts.repo + "/src/") or "/src/bin/" in f.get("file", ""):
             continue
         for c in ir.calls_in(f["body"]):
-            if callee_qn(c) == BLK + "::clear" and path(c.get("recv")) == ("this", "m_block"):
+            rp = path(c.get("recv")) if c.get("k") == "MCall" else None
+            # the exporter's buffered block, reached from the exporter itself or through a pointer / reference to it (a helper
+            # object's destructor, for instance: that one also runs when an exception unwinds the frame)
+            if callee_qn(c) == BLK + "::clear" and rp and rp[-1] == "m_block" and (f.get("cls") == EXP or len(rp) > 2) and f not in callers:
                 callers.append(f)
     ok = [f["key"] for f in callers] == [wb["key"]]
     run.ob("R12.5", "m_block.clear:only-write_block", ok, wb, wb["line"],
